@@ -41,6 +41,26 @@ def tok(b):
     return 1 + int(hashlib.sha1(bytes(b)).hexdigest()[:7], 16) if b else 0
 
 
+def fit_dataset(rng, ts, f, k, inst=None):
+    """A data set whose encoding is exactly k fragments of f payload bytes long (None when parity does not allow it)."""
+    for base in range(0, 40, 2):
+        ds = make_dataset(rng, 2, inst)
+        ds.ProcedureCodeSequence = pydicom.Sequence([])
+        del ds.ProcedureCodeSequence
+        ds.PatientID = 'I' * (1 + base % 8)
+        ln = len(dsutils.encode(ds, ts.is_implicit_VR, ts.is_little_endian))
+        want = k * f
+        while want < ln:
+            want += f
+        extra = want - ln
+        if extra % 2 == 0:
+            ds.PixelData = bytes(rng.getrandbits(8) for _ in range(2 + extra))
+            ds['PixelData'].VR = 'OW'
+            if len(dsutils.encode(ds, ts.is_implicit_VR, ts.is_little_endian)) % f == 0:
+                return ds
+    return None
+
+
 def make_dataset(rng, size, inst=None):
     ds = pydicom.Dataset()
     ds.SOPClassUID = CT
@@ -159,7 +179,10 @@ def main(tier='quick'):
     cases, metas = [], []
     try:
         n_cfg = 6 if tier == 'quick' else 60
+        n_err = 0
         for ci in range(n_cfg):
+            if n_err >= 3:
+                break              # enough evidence; every further failing store costs a time-out
             ts = TSS[ci % 3]
             dir_mode = bool(ci % 2)
             max_a = rng.choice([0, 256, 1024, 16384, 65536])
@@ -185,14 +208,27 @@ def main(tier='quick'):
                 small = (max_b and max_b < 200) or (max_a and max_a < 300)
                 sizes = [0, 10, 300, 3000] + ([20000] if (ci % 2 == 0 and not small) else [])
                 plan = [(s, None) for s in sizes] + [(50, repeat_uid), (60, repeat_uid), (0, repeat_uid)]
+                eff = min([m for m in (max_a, max_b) if m] or [65536])
+                if eff <= 16384:
+                    plan += [('fit', 1), ('fit', 3)]          # data set length an exact multiple of the fragment payload
                 for k, (size, inst) in enumerate(plan):
+                    if n_err >= 3:
+                        break
                     handler.outcome = [0, 0, 0xB000, 0xA700, 'EHE', 0, 0xB007, 0][k % 8]
-                    ds = make_dataset(rng, size, inst)
-                    from_file = bool((k + ci) % 2)
+                    if size == 'fit':
+                        ds = fit_dataset(rng, ts, eff - 6, inst)
+                        if ds is None:
+                            continue
+                        size, inst = 'fit-%d' % inst, None
+                        from_file = True
+                    else:
+                        ds = make_dataset(rng, size, inst)
+                        from_file = bool((k + ci) % 2)
                     obs, err, herr = one_store(net, srv, handler, cl, ds, ts, from_file, work, rng, dir_mode, sdir)
                     meta = {'ts': str(ts), 'dir': dir_mode, 'maxA': max_a, 'maxB': max_b, 'size': size, 'from_file': from_file,
                             'outcome': handler.outcome, 'repeat': inst is not None}
                     if err:
+                        n_err += 1
                         v.report({'site': 'whole-stack', 'clause': 'store-raised', 'exc': err.split(':')[0]},
                                  'storage_scu raised %s (%r)' % (err, meta), replay=meta)
                     if herr:
